@@ -1013,7 +1013,7 @@ def edge_slice_function(program):
     `slice(<..>, <..>, <parameter>.step)`.'''
     klass = dataset_class(program)
     meth = klass.methods.get('_get_bins_slice')
-    if meth is not None:
+    if meth is not None and not _thin_alias(meth):
         return meth
     cands = []
     for func in klass.module.functions.values():
@@ -1029,6 +1029,33 @@ def edge_slice_function(program):
     return cands[0] if len(cands) == 1 else None
 
 
+def _thin_alias(func):
+    '''Name of the function that `func` merely forwards its parameter to
+    (`return other(index)`), else None.'''
+    body = [st for st in func.node.body if not (isinstance(
+        st, ast.Expr) and isinstance(st.value, ast.Constant))]
+    pars = [p for p in func.params if p not in ('self', 'cls')]
+    if len(body) == 1 and isinstance(body[0], ast.Return) and isinstance(
+            body[0].value, ast.Call) and len(pars) == 1 and [
+                txt(a) for a in body[0].value.args] == pars and \
+            not body[0].value.keywords:
+        return call_name(body[0].value)
+    return None
+
+
+def edge_slice_names(program):
+    '''Names under which the edge-slice function is called: its own and
+    those of thin aliases of it.'''
+    real = edge_slice_function(program)
+    names = {real.name} if real is not None else {'_get_bins_slice'}
+    klass = dataset_class(program)
+    for func in list(klass.methods.values()) + list(
+            klass.module.functions.values()):
+        if _thin_alias(func) in names:
+            names.add(func.name)
+    return names
+
+
 def check_slice_apply(ctx):
     klass = dataset_class(ctx.program)
     meth = klass.methods.get('__getitem__')
@@ -1042,10 +1069,6 @@ def check_slice_apply(ctx):
         val = resolve_local(ctor_arg(call, 0, 'value'), defs)
         err = resolve_local(ctor_arg(call, 1, 'error'), defs)
         bins = resolve_local(ctor_arg(call, 99, 'bins'), defs)
-        ok_v = isinstance(val, ast.Subscript) and txt(val.value) == \
-            'self.value' and txt(val.slice) == idx
-        ok_e = isinstance(err, ast.Subscript) and txt(err.value) == \
-            'self.error' and txt(err.slice) == idx
         # the index itself, or its normal form as a tuple of slices
         # (`slices = (index,) if isinstance(index, slice) else index`)
         same = {idx}
@@ -1061,12 +1084,34 @@ def check_slice_apply(ctx):
                                     for b in (v.body, v.orelse)))
                         for v in vals):
                     same.add(nam)
-        ok_b = isinstance(bins, ast.Call) and any(
-            txt(a) in same for a in bins.args) and dotted(
-                receiver(bins)) == 'self'
+        def same_index(expr):
+            '''True: the index (or its tuple normal form); None: a local
+            produced by a call this rule does not read; False: anything
+            else.'''
+            if txt(expr) in same:
+                return True
+            if isinstance(expr, ast.Name) and any(
+                    isinstance(v, ast.Call) and any(
+                        txt(a) in same for a in v.args)
+                    for v in defs.get(expr.id, [])):
+                return None
+            return False
+
+        def conj(*vals):
+            return False if any(v is False for v in vals) else \
+                None if any(v is None for v in vals) else True
+        ok_v = isinstance(val, ast.Subscript) and txt(val.value) == \
+            'self.value' and same_index(val.slice)
+        ok_e = isinstance(err, ast.Subscript) and txt(err.value) == \
+            'self.error' and same_index(err.slice)
+        ok_b = isinstance(bins, ast.Call) and dotted(
+            receiver(bins)) == 'self' and (
+                True if any(txt(a) in same for a in bins.args) else
+                conj(*[same_index(a) for a in bins.args]) if bins.args
+                else False)
         ctx.decide('SLICE-APPLY', meth, f'value={txt(val)}, error='
                    f'{txt(err)}, bins={txt(bins)[:40]}',
-                   ok_v and ok_e and ok_b, at=meth.where(call),
+                   conj(ok_v, ok_e, ok_b), at=meth.where(call),
                    detail='value, error and bins are selected by the same '
                           'index')
 
@@ -1511,8 +1556,11 @@ def check_edge_kind(ctx):
     constructor selects the wrong slice of the new bins."""
     klass = dataset_class(ctx.program)
     n = 0
-    edge_fn = edge_slice_function(ctx.program)
-    edge_name = edge_fn.name if edge_fn is not None else '_get_bins_slice'
+    edge_names = edge_slice_names(ctx.program)
+
+    def mentions_edge(node):
+        return any(isinstance(c, ast.Call) and call_name(c) in edge_names
+                   for c in ast.walk(node))
     for meth in klass.methods.values():
         loops = {}
         for node in ast.walk(meth.node):
@@ -1537,9 +1585,7 @@ def check_edge_kind(ctx):
                             ast.Module(body=node.orelse, type_ignores=[])]
             else:
                 continue
-            uses = [edge_name in txt(b) if not isinstance(
-                b, ast.Module) else any(edge_name in txt(s_)
-                                        for s_ in b.body) for b in branches]
+            uses = [mentions_edge(b) for b in branches]
             if sorted(uses) != [False, True]:
                 continue
             n += 1
